@@ -41,6 +41,14 @@
       [spec_targets]: the list (spec_offset address, new blob) of the targeted entries;
       [disjoint_regions]: those byte ranges are pairwise disjoint.
 
+    - [acm_field hdr]: the little-endian 32-bit word at offset 24 of an ACM header (the size of
+      the module in 4-byte units); [acm_size hdr]: what tools.LookupACMSize returns for it;
+    - [dig_edit], [OEditDigs es], [edit_alg]: the caller rewrites the digest list of SE[0]
+      while the object is in use: [EKeep idx alg] keeps the entry that was at position idx,
+      buffer included, under the algorithm alg (the same, a shorter, a longer one), [ENew alg d]
+      installs a new entry whose buffer holds the digest, made with algorithm x, of the bytes p
+      ([d = Some (x, p)]) or anything else ([None]: nil, bytes of any length); a stored digest
+      [(a, Some (x, p))] is the digest H x p under the entry's algorithm a;
     - [bg_state], [step], [run], [final], [segs_of], [se_count], [writes_se] (section 6): one
       BootGuard object across calls: the segment list of every SE element and the digest
       list of SE[0]; the image is an argument of every call.  Section 6 states that
@@ -50,6 +58,14 @@
       call is given.  That the CODE keeps no other state between calls (caches keyed by buffer
       identity, length, file name) is sampled by the harness's sequences on one object, one
       reused buffer and one reused file (harness/cmd/c19/seq.go), not proved.
+
+    Round 5 (seeded changes C19-m8, C19-m9): section 5 now decides a startup-ACM entry
+    completely for ACMs of any declared size (the whole 32-bit size field of the header
+    counts: C19_acm_size_all_four_bytes, C19_stitch_acm_decided, C19_stitch_acm_reread,
+    closed instance with a 256 KiB ACM), section 6 states that what a digest buffer held
+    before CreateIBBDigest (nothing, an earlier digest, a longer digest of another algorithm,
+    bytes of a loaded manifest) decides nothing (C19_create_digest_ignores_stored_buffers,
+    C19_create_digest_stored_exact, C19_seq_pipeline_after_digest_edit).
 
     No clause is partial or refuted any more: the three defects this property had found
     (KNOWN_FINDINGS.json, "fixed") are repaired in the code and the theorems that excluded or
@@ -345,6 +361,62 @@ Theorem C19_stitch_reread_code_offsets : forall l orig acm bpm km es file file',
 Proof. exact stitch_loop_reread. Qed.
 Print Assumptions C19_stitch_reread_code_offsets.
 
+(** The size of the ACM that is in the image is taken from ALL FOUR bytes of the size field of
+    its header (a 32-bit word counting 4-byte units; fields below 2^30, i.e. sizes below
+    4 GiB, the range in which the code's uint32 product does not wrap) ... *)
+Theorem C19_acm_size_all_four_bytes : forall hdr,
+  0 <= acm_field hdr < 1073741824 ->
+  acm_size hdr = 4 * nth 24 hdr 0 + 1024 * nth 25 hdr 0 + 262144 * nth 26 hdr 0 + 67108864 * nth 27 hdr 0.
+Proof. exact acm_size_all_four_bytes. Qed.
+Print Assumptions C19_acm_size_all_four_bytes.
+
+(** ... so headers that differ anywhere in the field declare different sizes. *)
+Theorem C19_acm_size_field_injective : forall h1 h2,
+  0 <= acm_field h1 < 1073741824 -> 0 <= acm_field h2 < 1073741824 ->
+  acm_size h1 = acm_size h2 -> acm_field h1 = acm_field h2.
+Proof. exact acm_size_injective. Qed.
+Print Assumptions C19_acm_size_field_injective.
+
+(** A startup-ACM entry, decided completely, for an ACM of ANY declared size (256 KiB and more
+    included: size field >= 0x10000): the new ACM is written at the entry's offset iff its
+    length is 4 times the size field of the header found there; any other length is refused
+    and the file left alone. *)
+Theorem C19_stitch_acm_decided : forall l n re file e new,
+  anchored l n re -> BASE - re <= fe_addr e < BASE ->
+  spec_offset re (fe_addr e) < zlen file ->
+  0 < acm_field (read_padded file (spec_offset re (fe_addr e)) 32) < 1073741824 ->
+  new <> [] ->
+  stitch_acm l n file e new =
+  if zlen new =? 4 * acm_field (read_padded file (spec_offset re (fe_addr e)) 32)
+  then (write_at file (spec_offset re (fe_addr e)) new, true) else (file, false).
+Proof. exact stitch_acm_decided. Qed.
+Print Assumptions C19_stitch_acm_decided.
+
+(** ... and a new ACM of the declared size is accepted and reads back byte for byte. *)
+Theorem C19_stitch_acm_reread : forall l n re file e new,
+  anchored l n re -> BASE - re <= fe_addr e < BASE ->
+  spec_offset re (fe_addr e) < zlen file ->
+  0 < acm_field (read_padded file (spec_offset re (fe_addr e)) 32) < 1073741824 ->
+  zlen new = 4 * acm_field (read_padded file (spec_offset re (fe_addr e)) 32) ->
+  snd (stitch_acm l n file e new) = true /\
+  forall k, 0 <= k < zlen new ->
+  zn (fst (stitch_acm l n file e new)) (spec_offset re (fe_addr e) + k) = zn new k.
+Proof. exact stitch_acm_reread. Qed.
+Print Assumptions C19_stitch_acm_reread.
+
+(** closed instance: a 256 KiB ACM (size field 0x10000: its two low bytes are zero) at offset
+    4096 of a 264 KiB bare BIOS region: every new ACM of 256 KiB is accepted, every other
+    length refused *)
+Theorem C19_stitch_acm_256k_witness :
+  let e := mkFE 2 (4294967296 - 270336 + 4096) 0 in
+  zlen file_256k = 270336 /\ acm_size hdr_256k = 262144 /\
+  (forall new, zlen new = 262144 ->
+     stitch_acm LBiosOnly 270336 file_256k e new = (write_at file_256k 4096 new, true)) /\
+  (forall new, new <> [] -> zlen new <> 262144 ->
+     stitch_acm LBiosOnly 270336 file_256k e new = (file_256k, false)).
+Proof. exact stitch_acm_256k_witness. Qed.
+Print Assumptions C19_stitch_acm_256k_witness.
+
 (** the former failing input: a 2-byte KM for the 16-byte KM entry at the start of a 64-byte
     bare BIOS region goes to offset 0, the file keeps its length and the entry reads back
     (the code used to append the KM at offset 64) *)
@@ -369,7 +441,8 @@ Print Assumptions C19_stitch_error_keeps_earlier_writes.
     SE[0] ([bg_digs st]: algorithm, bytes the stored digest was computed over).  [step ver st
     o] is one call ([OCreateSegs se flags fit], [OCreateSegsCbfs ..], [OGetDigest alg layout
     image], [OCreateDigest layout image], [OMatch image]) or an assignment by the caller
-    ([OSetSegs], [OSetAlgs]); [run] / [final] a sequence of them.  The image (layout, bytes,
+    ([OSetSegs], [OSetAlgs], [OEditDigs]: the digest list rewritten with buffers kept, moved,
+    re-labelled); [run] / [final] a sequence of them.  The image (layout, bytes,
     FIT, CBFS directory) is an argument of the call: the model has no other memory, so every
     result below is about the image the call was given, whatever was processed before. *)
 
@@ -451,7 +524,7 @@ Theorem C19_seq_reads_only : forall ver st o,
   | OGetDigest _ _ _ | OMatch _ => fst (step ver st o) = st
   | OCreateDigest _ _ => bg_segs (fst (step ver st o)) = bg_segs st
   | OCreateSegs _ _ _ | OCreateSegsCbfs _ _ _ _ _ | OSetSegs _ _ => bg_digs (fst (step ver st o)) = bg_digs st
-  | OSetAlgs _ => bg_segs (fst (step ver st o)) = bg_segs st
+  | OSetAlgs _ | OEditDigs _ => bg_segs (fst (step ver st o)) = bg_segs st
   end.
 Proof. exact step_reads_only. Qed.
 Print Assumptions C19_seq_reads_only.
@@ -495,10 +568,75 @@ Theorem C19_seq_pipeline_any_history : forall ver st flags fit l img,
   let p := concat (map (fun s => slice img (spec_offset (zlen img) (sg_base s)) (sg_size s))
                        (filter included segs)) in
   run ver st [OCreateSegs 0 flags (Some fit); OCreateDigest l img; OMatch img] =
-  (mkBG (set_nth 0 segs (bg_segs st)) (map (fun ad => (fst ad, Some p)) (bg_digs st)),
+  (mkBG (set_nth 0 segs (bg_segs st)) (map (fun ad => (fst ad, Some (fst ad, p))) (bg_digs st)),
    [RUnit (Ok tt); RUnit (Ok tt); RBool (Ok true)]).
 Proof. exact run_pipeline_any_history. Qed.
 Print Assumptions C19_seq_pipeline_any_history.
+
+(** Digest buffers the manifest already carries.  CreateIBBDigest on two objects that list the
+    same algorithms but hold DIFFERENT buffers (none, the digest of an earlier call, a longer
+    digest of another algorithm, bytes of any length from a loaded manifest): the same outcome
+    and, on success, the same stored digests.  What a buffer held decides nothing. *)
+Theorem C19_create_digest_ignores_stored_buffers : forall ver l img segs digs digs',
+  map fst digs = map fst digs' ->
+  snd (create_digest_loop ver l img segs digs) = snd (create_digest_loop ver l img segs digs') /\
+  (snd (create_digest_loop ver l img segs digs) = Ok tt ->
+   fst (create_digest_loop ver l img segs digs) = fst (create_digest_loop ver l img segs digs')).
+Proof. exact create_digest_loop_ignores_old. Qed.
+Print Assumptions C19_create_digest_ignores_stored_buffers.
+
+(** Unconditional characterisation of a successful CreateIBBDigest on an object with any digest
+    list: every entry keeps its algorithm (an offered one) and holds exactly the digest of
+    the bytes GetIBBsDigest reads for the segment list: nothing of the old buffer. *)
+Theorem C19_create_digest_stored_exact : forall ver l img segs digs d,
+  create_digest_loop ver l img segs digs = (d, Ok tt) ->
+  Forall (fun ad => alg_supported ver (fst ad) = true) digs /\
+  (digs = [] /\ d = [] \/
+   exists p, digest_preimage l img segs = Ok p /\ d = map (fun ad => (fst ad, Some (fst ad, p))) digs).
+Proof. exact create_digest_loop_ok_inv. Qed.
+Print Assumptions C19_create_digest_stored_exact.
+
+(** The caller's rewrite of the digest list leaves the listed algorithms in the listed order
+    and touches no segment list. *)
+Theorem C19_seq_digest_edit : forall ver st es,
+  let st' := fst (step ver st (OEditDigs es)) in
+  map fst (bg_digs st') = map edit_alg es /\ bg_segs st' = bg_segs st /\
+  snd (step ver st (OEditDigs es)) = RNone.
+Proof. exact step_edit_digs. Qed.
+Print Assumptions C19_seq_digest_edit.
+
+(** The generation chain after the caller rewrote the digest list in ANY way (entries kept with
+    their buffers, moved, their algorithm changed to a shorter or a longer one, new entries
+    with arbitrary buffers) on an object with any history: one digest per listed algorithm,
+    each the hash of THIS image's bytes [p], and the independent validation accepts. *)
+Theorem C19_seq_pipeline_after_digest_edit : forall ver st es flags fit l img,
+  0 < se_count st ->
+  anchored l (zlen img) (zlen img) ->
+  Forall (fun e => is_startup e = true -> fit_entry_wf e) fit ->
+  Forall (fun s => included s = true -> seg_in_region (zlen img) img s)
+         (map (fun e => mkSeg (fe_addr e) (16 * fe_size e) flags) (filter is_startup fit)) ->
+  Forall (fun e => alg_supported ver (edit_alg e) = true) es ->
+  es <> [] ->
+  let segs := map (fun e => mkSeg (fe_addr e) (16 * fe_size e) flags) (filter is_startup fit) in
+  let p := concat (map (fun s => slice img (spec_offset (zlen img) (sg_base s)) (sg_size s))
+                       (filter included segs)) in
+  run ver st [OEditDigs es; OCreateSegs 0 flags (Some fit); OCreateDigest l img; OMatch img] =
+  (mkBG (set_nth 0 segs (bg_segs st)) (map (fun e => (edit_alg e, Some (edit_alg e, p))) es),
+   [RNone; RUnit (Ok tt); RUnit (Ok tt); RBool (Ok true)]).
+Proof. exact run_pipeline_after_digest_edit. Qed.
+Print Assumptions C19_seq_pipeline_after_digest_edit.
+
+(** closed instance: a CBnT manifest carrying a SHA384 digest of other bytes, bytes that are no
+    digest, and an empty buffer; the caller moves the SHA384 entry to the end and relabels it
+    SHA256 (a SHORTER digest than the buffer it keeps), relabels the second SHA1: after
+    CreateIBBDigest every entry holds the hash of the image's bytes [16,32); accepted. *)
+Theorem C19_seq_digest_edit_witness :
+  run 2 (mkBG [[mkSeg (4294967296 - 48) 16 0]] [(12, Some (12, [1; 2; 3])); (11, None); (18, None)])
+      [OEditDigs [EKeep 1 4; ENew 18 None; EKeep 0 11]; OCreateDigest (LIFD 16 48) (seqZ 0 64); OMatch (seqZ 0 64)] =
+  (mkBG [[mkSeg (4294967296 - 48) 16 0]] [(4, Some (4, seqZ 16 16)); (18, Some (18, seqZ 16 16)); (11, Some (11, seqZ 16 16))],
+   [RNone; RUnit (Ok tt); RBool (Ok true)]).
+Proof. exact run_digest_edit_witness. Qed.
+Print Assumptions C19_seq_digest_edit_witness.
 
 (** Stitching the same file twice (same FIT): still no byte outside the targeted entries'
     regions of either call differs from the original file. *)
@@ -575,7 +713,7 @@ Qed.
 (** an object with a history (stale segments in both SE elements, a digest of another image)
     on which the generation chain is run for the 64-byte image above *)
 Example ex_history : bg_state :=
-  mkBG [[mkSeg 1 2 3; mkSeg (4294967296 - 8) 8 0]; [mkSeg 7 7 7]] [(11, Some [1; 2; 3]); (12, None)].
+  mkBG [[mkSeg 1 2 3; mkSeg (4294967296 - 8) 8 0]; [mkSeg 7 7 7]] [(11, Some (12, [1; 2; 3])); (12, None)].
 
 Example ex_pipeline_hyps :
   0 < se_count ex_history /\
@@ -585,7 +723,7 @@ Example ex_pipeline_hyps :
   Forall (fun ad => alg_supported 2 (fst ad) = true) (bg_digs ex_history) /\
   run 2 ex_history [OCreateSegs 0 0 (Some ex_fit); OCreateDigest (LIFD 16 48) (seqZ 0 64); OMatch (seqZ 0 64)] =
   (mkBG [[mkSeg (4294967296 - 48) 16 0; mkSeg (4294967296 - 32) 16 0]; [mkSeg 7 7 7]]
-        [(11, Some (seqZ 16 32)); (12, Some (seqZ 16 32))],
+        [(11, Some (11, seqZ 16 32)); (12, Some (12, seqZ 16 32))],
    [RUnit (Ok tt); RUnit (Ok tt); RBool (Ok true)]).
 Proof.
   split; [vm_compute; reflexivity|].
@@ -597,3 +735,16 @@ Proof.
   apply Forall_cons; [|apply Forall_cons; [|apply Forall_nil]];
     intros _; unfold seg_in_region, seg_inside, spec_offset, BASE; cbn; lia.
 Qed.
+
+(** the hypotheses of the ACM theorems: the 264 KiB image of C19_stitch_acm_256k_witness *)
+Example ex_acm_hyps :
+  anchored LBiosOnly 270336 270336 /\
+  acm_field hdr_256k = 65536 /\ 0 < acm_field hdr_256k < 1073741824 /\
+  nth 24 hdr_256k 0 = 0 /\ nth 25 hdr_256k 0 = 0 /\ nth 26 hdr_256k 0 = 1.
+Proof. split; [cbn; unfold W32; lia|]. vm_compute. repeat split; reflexivity || discriminate. Qed.
+
+(** a rewrite of the digest list whose algorithms are all offered *)
+Example ex_digest_edit_hyps :
+  Forall (fun e => alg_supported 2 (edit_alg e) = true) [EKeep 1 4; ENew 18 None; EKeep 0 11] /\
+  map fst [(12, Some [1; 2; 3]); (11, @None (list Z)); (18, None)] = map fst [(12, @None (list Z)); (11, Some [9]); (18, None)].
+Proof. split; [repeat constructor|reflexivity]. Qed.
